@@ -166,3 +166,214 @@ theorem runM_throw_bind {α β : Type} (e : E) (f : α → PM β) (s : DL) :
   rw [runM_bind, runM_throw]
 
 end Gonuts.Model.Mint
+
+namespace Gonuts.Model.Mint
+/-! ### Fused equations for the writing effects: the table update is exposed directly -/
+
+theorem runM_saveProofs_bind {β : Type} (rows : List PRow) (f : Unit → PM β) (db : DB) (ln : LN) :
+    runM (dbTry (.saveProofs rows) >>= f) (db, ln) =
+      match insertRows db.spent rows with
+      | some t => runM (f ()) ({ db with spent := t }, ln)
+      | none => ((db, ln), .error (1, "db")) := by
+  rw [runM_dbTry_bind]; simp only [stepDL, execDb]; cases insertRows db.spent rows <;> rfl
+
+theorem runM_saveProofs {rows : List PRow} (db : DB) (ln : LN) :
+    runM (dbTry (.saveProofs rows)) (db, ln) =
+      match insertRows db.spent rows with
+      | some t => (({ db with spent := t }, ln), .ok ())
+      | none => ((db, ln), .error (1, "db")) := by
+  rw [runM_dbTry]; simp only [stepDL, execDb]; cases insertRows db.spent rows <;> rfl
+
+theorem runM_addPending_bind {β : Type} (rows : List PRow) (q : Nat) (f : Unit → PM β) (db : DB) (ln : LN) :
+    runM (dbTry (.addPending rows q) >>= f) (db, ln) =
+      match insertRows db.pending (rows.map (fun r => { r with quote := q })) with
+      | some t => runM (f ()) ({ db with pending := t }, ln)
+      | none => ((db, ln), .error (1, "db")) := by
+  rw [runM_dbTry_bind]; simp only [stepDL, execDb]
+  cases insertRows db.pending (rows.map (fun r => { r with quote := q })) <;> rfl
+
+theorem runM_removePending_bind {β : Type} (ys : List Nat) (f : Unit → PM β) (db : DB) (ln : LN) :
+    runM (dbTry (.removePending ys) >>= f) (db, ln) =
+      runM (f ()) ({ db with pending := db.pending.filter (fun r => !ys.contains r.y) }, ln) := by
+  rw [runM_dbTry_bind]; rfl
+
+theorem runM_removePending (ys : List Nat) (db : DB) (ln : LN) :
+    runM (dbTry (.removePending ys)) (db, ln) =
+      (({ db with pending := db.pending.filter (fun r => !ys.contains r.y) }, ln), .ok ()) := by
+  rw [runM_dbTry]; rfl
+
+theorem runM_saveSigs_bind {β : Type} (sigs : List BSig) (f : Unit → PM β) (db : DB) (ln : LN) :
+    runM (dbTry (.saveSigs sigs) >>= f) (db, ln) =
+      match insertSigs db.sigs sigs with
+      | some t => runM (f ()) ({ db with sigs := t }, ln)
+      | none => ((db, ln), .error (1, "db")) := by
+  rw [runM_dbTry_bind]; simp only [stepDL, execDb]; cases insertSigs db.sigs sigs <;> rfl
+
+theorem runM_updateMintQ_bind {β : Type} (id : Nat) (st : MQState) (f : Unit → PM β) (db : DB) (ln : LN) :
+    runM (dbTry (.updateMintQuoteState id st) >>= f) (db, ln) =
+      if db.mintQ.any (·.id == id) then runM (f ()) ({ db with mintQ := updMintQ db.mintQ id st }, ln)
+      else ((db, ln), .error (1, "db")) := by
+  rw [runM_dbTry_bind]; simp only [stepDL, execDb]; by_cases h : (db.mintQ.any (·.id == id)) = true <;> simp [h]
+
+theorem runM_updateMintQ (id : Nat) (st : MQState) (db : DB) (ln : LN) :
+    runM (dbTry (.updateMintQuoteState id st)) (db, ln) =
+      if db.mintQ.any (·.id == id) then (({ db with mintQ := updMintQ db.mintQ id st }, ln), .ok ())
+      else ((db, ln), .error (1, "db")) := by
+  rw [runM_dbTry]; simp only [stepDL, execDb]; by_cases h : (db.mintQ.any (·.id == id)) = true <;> simp [h]
+
+theorem runM_updateMeltQ_bind {β : Type} (id pre : Nat) (st : LQState) (f : Unit → PM β) (db : DB) (ln : LN) :
+    runM (dbTry (.updateMeltQuote id pre st) >>= f) (db, ln) =
+      if db.meltQ.any (·.id == id) then runM (f ()) ({ db with meltQ := updMeltQ db.meltQ id pre st }, ln)
+      else ((db, ln), .error (1, "db")) := by
+  rw [runM_dbTry_bind]; simp only [stepDL, execDb]; by_cases h : (db.meltQ.any (·.id == id)) = true <;> simp [h]
+
+theorem runM_updateMeltQ (id pre : Nat) (st : LQState) (db : DB) (ln : LN) :
+    runM (dbTry (.updateMeltQuote id pre st)) (db, ln) =
+      if db.meltQ.any (·.id == id) then (({ db with meltQ := updMeltQ db.meltQ id pre st }, ln), .ok ())
+      else ((db, ln), .error (1, "db")) := by
+  rw [runM_dbTry]; simp only [stepDL, execDb]; by_cases h : (db.meltQ.any (·.id == id)) = true <;> simp [h]
+
+theorem runM_saveMintQ_bind {β : Type} (q : MintQ) (f : Unit → PM β) (db : DB) (ln : LN) :
+    runM (dbTry (.saveMintQuote q) >>= f) (db, ln) =
+      if high q.amount then ((db, ln), .error (1, "db"))
+      else if db.mintQ.any (·.id == q.id) then ((db, ln), .error (1, "db"))
+      else runM (f ()) ({ db with mintQ := db.mintQ ++ [q] }, ln) := by
+  rw [runM_dbTry_bind]; simp only [stepDL, execDb]
+  by_cases h1 : high q.amount = true
+  · simp [h1]
+  · by_cases h2 : (db.mintQ.any (·.id == q.id)) = true
+    · simp [h1, h2]
+    · simp [h1, h2]
+
+theorem runM_saveMeltQ_bind {β : Type} (q : MeltQ) (f : Unit → PM β) (db : DB) (ln : LN) :
+    runM (dbTry (.saveMeltQuote q) >>= f) (db, ln) =
+      if (high q.amount || high q.feeReserve || high q.amountMsat) = true then ((db, ln), .error (1, "db"))
+      else if db.meltQ.any (·.id == q.id) then ((db, ln), .error (1, "db"))
+      else runM (f ()) ({ db with meltQ := db.meltQ ++ [q] }, ln) := by
+  rw [runM_dbTry_bind]; simp only [stepDL, execDb]
+  by_cases h1 : (high q.amount || high q.feeReserve || high q.amountMsat) = true
+  · simp [h1]
+  · by_cases h2 : (db.meltQ.any (·.id == q.id)) = true
+    · simp [h1, h2]
+    · simp [h1, h2]
+
+end Gonuts.Model.Mint
+
+namespace Gonuts.Model.Mint
+/-! ### Fused equations for the reading effects and the Lightning calls -/
+
+theorem runM_getPending_bind {β : Type} (ys : List YRef) (f : List PRow → PM β) (db : DB) (ln : LN) :
+    runM (dbTry (.getPending ys) >>= f) (db, ln) = runM (f (db.pending.filter (fun r => yMatch ys r.y))) (db, ln) := by
+  rw [runM_dbTry_bind]; rfl
+theorem runM_getProofsUsed_bind {β : Type} (ys : List YRef) (f : List PRow → PM β) (db : DB) (ln : LN) :
+    runM (dbTry (.getProofsUsed ys) >>= f) (db, ln) = runM (f (db.spent.filter (fun r => yMatch ys r.y))) (db, ln) := by
+  rw [runM_dbTry_bind]; rfl
+theorem runM_getPendingByQuote_bind {β : Type} (q : Nat) (f : List PRow → PM β) (db : DB) (ln : LN) :
+    runM (dbTry (.getPendingByQuote q) >>= f) (db, ln) = runM (f (db.pending.filter (·.quote == q))) (db, ln) := by
+  rw [runM_dbTry_bind]; rfl
+theorem runM_getSigs_bind {β : Type} (bs : List Nat) (f : List BSig → PM β) (db : DB) (ln : LN) :
+    runM (dbTry (.getSigs bs) >>= f) (db, ln) = runM (f (db.sigs.filter (fun s => bs.contains s.b))) (db, ln) := by
+  rw [runM_dbTry_bind]; rfl
+theorem runM_getIssued_bind {β : Type} (f : List (Nat × UInt64) → PM β) (db : DB) (ln : LN) :
+    runM (dbTry .getIssued >>= f) (db, ln) =
+      match groupSum (db.sigs.map (fun s => (s.ks, s.amount))) with
+      | .ok v => runM (f v) (db, ln)
+      | .error _ => ((db, ln), .error (1, "db")) := by
+  rw [runM_dbTry_bind]; simp only [stepDL, execDb]; cases groupSum (db.sigs.map (fun s => (s.ks, s.amount))) <;> rfl
+theorem runM_getRedeemed_bind {β : Type} (f : List (Nat × UInt64) → PM β) (db : DB) (ln : LN) :
+    runM (dbTry .getRedeemed >>= f) (db, ln) =
+      match groupSum (db.spent.map (fun r => (ksIdx r.ks, r.amount))) with
+      | .ok v => runM (f v) (db, ln)
+      | .error _ => ((db, ln), .error (1, "db")) := by
+  rw [runM_dbTry_bind]; simp only [stepDL, execDb]; cases groupSum (db.spent.map (fun r => (ksIdx r.ks, r.amount))) <;> rfl
+
+def dbGetMintQ (db : DB) (id : Int) : DbRes MintQ :=
+  match db.mintQ.find? (fun q => intIs id q.id) with | some q => .ok q | none => .error .notFound
+def dbGetMintQByHash (db : DB) (h : Nat) : DbRes MintQ :=
+  match db.mintQ.find? (·.hash == h) with | some q => .ok q | none => .error .notFound
+def dbGetMeltQ (db : DB) (id : Int) : DbRes MeltQ :=
+  match db.meltQ.find? (fun q => intIs id q.id) with | some q => .ok q | none => .error .notFound
+def dbGetMeltQByReq (db : DB) (inv : Nat) : DbRes MeltQ :=
+  match db.meltQ.find? (·.inv == inv) with | some q => .ok q | none => .error .notFound
+def dbGetSig (db : DB) (b : Nat) : DbRes BSig :=
+  match db.sigs.find? (·.b == b) with | some s => .ok s | none => .error .notFound
+
+theorem runM_getMintQuote_bind {β : Type} (id : Int) (f : DbRes MintQ → PM β) (db : DB) (ln : LN) :
+    runM (eff (.getMintQuote id) >>= f) (db, ln) = runM (f (dbGetMintQ db id)) (db, ln) := by
+  rw [runM_eff_bind]; simp only [stepDL, execDb, dbGetMintQ]; cases db.mintQ.find? (fun q => intIs id q.id) <;> rfl
+theorem runM_getMintQuoteByHash_bind {β : Type} (h : Nat) (f : DbRes MintQ → PM β) (db : DB) (ln : LN) :
+    runM (eff (.getMintQuoteByHash h) >>= f) (db, ln) = runM (f (dbGetMintQByHash db h)) (db, ln) := by
+  rw [runM_eff_bind]; simp only [stepDL, execDb, dbGetMintQByHash]; cases db.mintQ.find? (·.hash == h) <;> rfl
+theorem runM_getMeltQuote_bind {β : Type} (id : Int) (f : DbRes MeltQ → PM β) (db : DB) (ln : LN) :
+    runM (eff (.getMeltQuote id) >>= f) (db, ln) = runM (f (dbGetMeltQ db id)) (db, ln) := by
+  rw [runM_eff_bind]; simp only [stepDL, execDb, dbGetMeltQ]; cases db.meltQ.find? (fun q => intIs id q.id) <;> rfl
+theorem runM_getMeltQuoteByReq_bind {β : Type} (inv : Nat) (f : DbRes MeltQ → PM β) (db : DB) (ln : LN) :
+    runM (eff (.getMeltQuoteByReq inv) >>= f) (db, ln) = runM (f (dbGetMeltQByReq db inv)) (db, ln) := by
+  rw [runM_eff_bind]; simp only [stepDL, execDb, dbGetMeltQByReq]; cases db.meltQ.find? (·.inv == inv) <;> rfl
+theorem runM_getSig_bind {β : Type} (b : Nat) (f : DbRes BSig → PM β) (db : DB) (ln : LN) :
+    runM (eff (.getSig b) >>= f) (db, ln) = runM (f (dbGetSig db b)) (db, ln) := by
+  rw [runM_eff_bind]; simp only [stepDL, execDb, dbGetSig]; cases db.sigs.find? (·.b == b) <;> rfl
+theorem runM_getSeed_bind {β : Type} (f : DbRes Unit → PM β) (db : DB) (ln : LN) :
+    runM (eff .getSeed >>= f) (db, ln) = runM (f (.ok ())) (db, ln) := by
+  rw [runM_eff_bind]; rfl
+
+theorem runM_effUpdateMintQ_bind {β : Type} (id : Nat) (st : MQState) (f : DbRes Unit → PM β) (db : DB) (ln : LN) :
+    runM (eff (.updateMintQuoteState id st) >>= f) (db, ln) =
+      if db.mintQ.any (·.id == id) then runM (f (.ok ())) ({ db with mintQ := updMintQ db.mintQ id st }, ln)
+      else runM (f (.error .notUpdated)) (db, ln) := by
+  rw [runM_eff_bind]; simp only [stepDL, execDb]
+  by_cases h : (db.mintQ.any (·.id == id)) = true <;> simp [h]
+
+/-- Lightning state after a scripted payment / status call. -/
+def lnPop (ln : LN) (c : LnAns → LnCall) : LN := record (popScript ln).1 (c (popScript ln).2)
+
+theorem runM_lnFeeReserve_bind {β : Type} (a : UInt64) (f : UInt64 → PM β) (db : DB) (ln : LN) :
+    runM (eff (.lnFeeReserve a) >>= f) (db, ln) = runM (f (if ln.feePct then (a + 99) / 100 else 0)) (db, ln) := by
+  rw [runM_eff_bind]; rfl
+theorem runM_lnSendPayment_bind {β : Type} (inv : Nat) (maxFee : UInt64) (f : LnAns → PM β) (db : DB) (ln : LN) :
+    runM (eff (.lnSendPayment inv maxFee) >>= f) (db, ln) =
+      runM (f (popScript ln).2) (db, lnPop ln (fun a => ⟨"SendPayment", inv, invMsat ln inv, maxFee, a.str⟩)) := by
+  rw [runM_eff_bind]; rfl
+theorem runM_lnPayPartial_bind {β : Type} (inv : Nat) (msat maxFee : UInt64) (f : LnAns → PM β) (db : DB) (ln : LN) :
+    runM (eff (.lnPayPartial inv msat maxFee) >>= f) (db, ln) =
+      runM (f (popScript ln).2) (db, lnPop ln (fun a => ⟨"PayPartialAmount", inv, if msat == 0 then invMsat ln inv else msat, maxFee, a.str⟩)) := by
+  rw [runM_eff_bind]; rfl
+theorem runM_lnOutgoingStatus_bind {β : Type} (h : Nat) (f : LnAns → PM β) (db : DB) (ln : LN) :
+    runM (eff (.lnOutgoingStatus h) >>= f) (db, ln) =
+      runM (f (popScript ln).2) (db, lnPop ln (fun a => ⟨"OutgoingPaymentStatus", h, 0, 0, a.str⟩)) := by
+  rw [runM_eff_bind]; rfl
+
+/-- Lightning state and answer of an `InvoiceStatus` call. -/
+def lnInvStatus (ln : LN) (h : Nat) : LN × Option Bool := ((execLn ln (.lnInvoiceStatus h)).getD (ln, none))
+theorem runM_lnInvoiceStatus_bind {β : Type} (h : Nat) (f : Option Bool → PM β) (db : DB) (ln : LN) :
+    runM (eff (.lnInvoiceStatus h) >>= f) (db, ln) = runM (f (lnInvStatus ln h).2) (db, (lnInvStatus ln h).1) := by
+  rw [runM_eff_bind]
+  have : stepDL (db, ln) (.lnInvoiceStatus h) = ((db, (lnInvStatus ln h).1), (lnInvStatus ln h).2) := by
+    unfold stepDL lnInvStatus
+    simp only [execDb]
+    cases hx : execLn ln (.lnInvoiceStatus h) with
+    | some p => rfl
+    | none =>
+      exfalso
+      simp only [execLn] at hx
+      repeat' split at hx
+      all_goals cases hx
+  rw [this]
+
+def lnCreateInv (ln : LN) (a : UInt64) : LN × Option Nat := ((execLn ln (.lnCreateInvoice a)).getD (ln, none))
+theorem runM_lnCreateInvoice_bind {β : Type} (a : UInt64) (f : Option Nat → PM β) (db : DB) (ln : LN) :
+    runM (eff (.lnCreateInvoice a) >>= f) (db, ln) = runM (f (lnCreateInv ln a).2) (db, (lnCreateInv ln a).1) := by
+  rw [runM_eff_bind]
+  have : stepDL (db, ln) (.lnCreateInvoice a) = ((db, (lnCreateInv ln a).1), (lnCreateInv ln a).2) := by
+    unfold stepDL lnCreateInv
+    simp only [execDb]
+    cases hx : execLn ln (.lnCreateInvoice a) with
+    | some p => rfl
+    | none =>
+      exfalso
+      simp only [execLn] at hx
+      repeat' split at hx
+      all_goals cases hx
+  rw [this]
+
+end Gonuts.Model.Mint
